@@ -13,6 +13,7 @@ class Unspecified(Exception):
 class RefTable:
     def __init__(self, entries: list[tuple[bytes, str]]):
         """entries in file order: (code bytes, text); later duplicates win."""
+        self.entries = list(entries)
         self.enc: dict[str, bytes] = {}
         self.dec: dict[bytes, str] = {}
         for code, text in entries:
@@ -52,8 +53,9 @@ class RefTable:
         return bytes(out)
 
     def codes_unique_prefix_free(self) -> bool:
-        codes = list(self.enc.values())
-        if len(set(codes)) != len(codes):
+        """Round-trip claim applies: every line of the file has its own code and its own text, no code is a prefix of another."""
+        codes = [c for c, _ in self.entries]
+        if len(set(codes)) != len(codes) or len({t for _, t in self.entries}) != len(self.entries):
             return False
         for a in codes:
             for b in codes:
